@@ -451,8 +451,11 @@ def main():
         if r.get('canaries', 0) == 0 and not u.get('no_canary'):
             undecided.append(f"{r['unit']}: harness has no reachability canary")
         if r.get('canaries_failed', 0) != r.get('canaries', 0):
-            bad = [o['desc'] for o in r['obligations'] if o['kind'] == 'canary' and o['status'] != 'FAILURE']
-            undecided.append(f"{r['unit']}: vacuous - canary not reachable: {bad}")
+            # a canary in a stub is copied to every call site when the stub is inlined: it is live when one copy is
+            live = {o['desc'] for o in r['obligations'] if o['kind'] == 'canary' and o['status'] == 'FAILURE'}
+            bad = sorted({o['desc'] for o in r['obligations'] if o['kind'] == 'canary' and o['status'] != 'FAILURE'} - live)
+            if bad:
+                undecided.append(f"{r['unit']}: vacuous - canary not reachable: {bad}")
         if r['nspec_loops'] and not r['has_loop_obligations']:
             undecided.append(f"{r['unit']}: loop contracts woven but no loop_invariant obligations generated")
         minob = u.get('min_obligations', 1)
@@ -486,11 +489,23 @@ def main():
                     violations.append((r, o))
             else:
                 # cbmc reports UNKNOWN for obligations that lie behind a failed check on every path
-                masked.append(f"{r['unit']}: obligation {o['name']} status {o['status']}")
+                masked.append((r['unit'], f"{r['unit']}: obligation {o['name']} status {o['status']}", bounded, pu))
     # report
-    if masked and not violations:
-        # nothing failed that explains the UNKNOWNs (or only listed findings did): they stay undecided
-        undecided += masked[:20]
+    # UNKNOWNs in a unit where a LISTED finding failed lie behind that finding: they are neither proved nor open -- taken out
+    # of the count and reported with the finding (coverage.known_findings[].masked). UNKNOWNs that nothing explains stay undecided.
+    known_units = {unit for _, unit, _ in knownhits}
+    masked_by_known = {}
+    rest = []
+    for unit, msg, bnd, pu_ in masked:
+        if unit in known_units and not any(r_['unit'] == unit for r_, _ in violations):
+            masked_by_known[unit] = masked_by_known.get(unit, 0) + 1
+            pu_['obligations'] -= 1
+            if bnd: n_bounded -= 1
+            else: n_ob -= 1
+        else:
+            rest.append(msg)
+    if rest and not violations:
+        undecided += rest[:20]
     printed = set()
     for k, unit, o in knownhits:
         if k['line'] not in printed:
@@ -520,7 +535,7 @@ def main():
     wall = round(time.time() - t0, 1)
     if not a.no_evidence and not a.unit:
         write_evidence(a.prop, tier, seed, results, per_unit, n_ob, n_ok, n_bounded, n_bounded_ok, samples,
-                       sorted(trusted), sorted(assumptions), len(vio_lines), [k['line'] for k, _, _ in knownhits], undecided, wall)
+                       sorted(trusted), sorted(assumptions), len(vio_lines), [k['line'] for k, _, _ in knownhits], undecided, wall, masked_by_known)
     if vio_lines:
         sys.exit(1)
     if undecided:
@@ -528,7 +543,7 @@ def main():
     print(f'OK property={a.prop} tier={tier} units={len(results)} obligations={n_ob} discharged={n_ok} bounded={n_bounded_ok}/{n_bounded} wall={wall}s')
     sys.exit(0)
 
-def write_evidence(pid, tier, seed, results, per_unit, n_ob, n_ok, n_b, n_bok, samples, trusted, assumptions, nviol, knownlines, undecided, wall):
+def write_evidence(pid, tier, seed, results, per_unit, n_ob, n_ok, n_b, n_bok, samples, trusted, assumptions, nviol, knownlines, undecided, wall, masked_by_known=None):
     meta = {}
     mp = os.path.join(VERIF, 'props_meta.json')
     if os.path.exists(mp):
@@ -546,6 +561,7 @@ def write_evidence(pid, tier, seed, results, per_unit, n_ob, n_ok, n_b, n_bok, s
                samples=samples or [dict(note='no labelled clause sampled')],
                clauses_not_decided=meta.get('not_decided', []),
                known_findings=sorted(set(knownlines)), known_finding_obligations=len(knownlines),
+               not_decided_behind_known_findings=masked_by_known or {},
                undecided=undecided,
                backend='cbmc 6.11.0 (goto-instrument --dfcc; SAT back end minisat2)',
                solver_s_total=round(sum(p['solver_s'] for p in per_unit), 1),
